@@ -242,6 +242,14 @@ fn gen_fee_pair(r: &mut Rng, accounts: &[String]) -> (Value, Value) {
     if r.chance(0.12) {
         return (json!(""), json!(""));
     }
+    if r.chance(0.04) {
+        // blank but not empty
+        return match r.below(3) {
+            0 => (json!(" "), json!(" ")),
+            1 => (json!(""), json!("  ")),
+            _ => (json!("\t"), json!("")),
+        };
+    }
     let rates = ["0", "0.01", "0.010", "0.02", "0.5", "1", "abc", "", "0.1.2", "-0.1", "1e-2", " 0.1", "0.01 ", "0.01\n", "0,01", "1/100", "0x1", "00.01", "0.0100", "0.00333333333333333333333333333333", "000.5000000000000000000000000000000000"];
     let addrs_bad = ["", "ab", "Bad-Addr", "with space"];
     let rate = if r.chance(0.07) {
@@ -557,7 +565,23 @@ fn mutate_instantiate(m: &mut Value, r: &mut Rng, accounts: &[String]) {
                     m[k] = json!(v);
                 }
             }
-            11 => m["convertible_base_denoms"] = json!([]),
+            11 => match r.below(3) {
+                0 => m["convertible_base_denoms"] = json!([]),
+                1 => {
+                    // the only quote denomination is the base denomination itself
+                    let b = m["base_denom"].clone();
+                    m["supported_quote_denoms"] = json!([b]);
+                }
+                _ => {
+                    // the same malformed address in both role lists
+                    let bad = r.pick(&["ab", "Exec_2", "", "has space"]).to_string();
+                    for k in ["approvers", "executors"] {
+                        let mut v: Vec<String> = serde_json::from_value(m[k].clone()).unwrap_or_default();
+                        v.push(bad.clone());
+                        m[k] = json!(v);
+                    }
+                }
+            },
             _ => {
                 // structurally malformed
                 match r.below(3) {
@@ -1293,7 +1317,7 @@ fn decide(
                             // a look-alike of the base denomination
                             base = base.to_uppercase();
                         }
-                        funds = vec![CoinS::new(sz, &base)];
+                        funds = if r.chance(0.5) { vec![CoinS::new(sz, &base)] } else { vec![] };
                     }
                     _ => {}
                 }
@@ -1527,7 +1551,20 @@ fn gen_modify(sim: &Sim, cfg: &Cfg, r: &mut Rng, accounts: &[String]) -> (String
             2 => v.reverse(),
             3 => v = vec![],
             4 => v = vec![r.pick(accounts).clone()],
-            _ => match r.below(6) {
+            _ => match r.below(7) {
+                6 => {
+                    // grows overall but loses one current member
+                    if !v.is_empty() {
+                        let i = r.below(v.len() as u64) as usize;
+                        v.remove(i);
+                    }
+                    for _ in 0..2 {
+                        let a = r.pick(accounts).clone();
+                        if !v.contains(&a) && !cfg.approvers.contains(&a) {
+                            v.push(a);
+                        }
+                    }
+                }
                 0 => v.push("Bad-Addr".into()),
                 1 => v = vec!["".into()],
                 2 => v.insert(r.below(v.len() as u64 + 1) as usize, "".into()),
@@ -1568,8 +1605,15 @@ fn gen_modify(sim: &Sim, cfg: &Cfg, r: &mut Rng, accounts: &[String]) -> (String
         if r.chance(0.45) {
             let (rate, acct): (Value, Value) = match r.below(9) {
                 0 | 1 => match cur {
-                    // same number, other spelling, maybe another account
-                    Some(f) => (json!(respell(&f.rate, r)), json!(if r.chance(0.5) { f.account.clone() } else { r.pick(accounts).clone() })),
+                    // same number, other spelling, maybe another account (or a blank one)
+                    Some(f) => (
+                        json!(respell(&f.rate, r)),
+                        json!(match r.below(5) {
+                            0 => String::new(),
+                            1 | 2 => f.account.clone(),
+                            _ => r.pick(accounts).clone(),
+                        }),
+                    ),
                     None => (json!(*r.pick(&RATES_PLAIN)), json!(r.pick(accounts).clone())),
                 },
                 2 => match cur {
